@@ -119,11 +119,182 @@ theorem scopesOk_iff (e : Expectation) (granted : List String) :
     simp only [ScopesMatcher.matches, List.all_eq_true, List.any_eq_true, covers1_iff, Option.some.injEq,
       forall_eq']
 
+/-! ## The matchers of the executable specification -/
+
+theorem spec_hier_iff (g r : String) : Spec.hier g r = true ↔ Covers .hierarchic g r := by
+  show Spec.hier g r = true ↔ (g = r ∨ (g.utf8ByteSize ≤ r.utf8ByteSize ∧ ∃ rest, rest ≠ [] ∧ parts r = parts g ++ rest))
+  simp only [Spec.hier, Bool.or_eq_true, beq_iff_eq, Bool.and_eq_true, decide_eq_true_eq,
+    List.isPrefixOf_iff_prefix]
+  constructor
+  · rintro (h | ⟨⟨hb, ⟨t, ht⟩⟩, hl⟩)
+    · exact Or.inl h
+    · refine Or.inr ⟨hb, t, ?_, ht.symm⟩
+      rintro rfl
+      rw [← ht] at hl
+      simp at hl
+  · rintro (h | ⟨hb, t, hne, ht⟩)
+    · exact Or.inl h
+    · refine Or.inr ⟨⟨hb, ⟨t, ht.symm⟩⟩, ?_⟩
+      rw [ht, List.length_append]
+      have : 0 < t.length := List.length_pos_iff.mpr hne
+      omega
+
+theorem spec_wild_iff (mp np : List String) : Spec.wild mp np = true ↔ WildMatch mp np := by
+  induction mp generalizing np with
+  | nil =>
+    cases np with
+    | nil => simp [Spec.wild]; exact .nil
+    | cons n ns => simp [Spec.wild]; intro h; cases h
+  | cons m ms ih =>
+    cases np with
+    | nil => simp [Spec.wild]; intro h; cases h
+    | cons n ns =>
+      cases ms with
+      | nil =>
+        cases ns with
+        | nil =>
+          simp only [Spec.wild, List.isEmpty_nil, ↓reduceIte, Bool.or_eq_true, Bool.and_eq_true, beq_iff_eq,
+            bne_iff_ne, ne_eq]
+          constructor
+          · intro h; exact .step h .nil
+          · intro h
+            cases h with
+            | star _ _ hn => exact Or.inl ⟨rfl, hn⟩
+            | step hp _ => exact hp
+        | cons n' ns' =>
+          simp only [Spec.wild, List.isEmpty_cons, Bool.false_eq_true, ↓reduceIte, Bool.and_eq_true, beq_iff_eq,
+            bne_iff_ne, ne_eq]
+          constructor
+          · rintro ⟨rfl, hn⟩; exact .star _ _ hn
+          · intro h
+            cases h with
+            | star _ _ hn => exact ⟨rfl, hn⟩
+            | step hp hrest => cases hrest
+      | cons m' ms' =>
+        simp only [Spec.wild, Bool.and_eq_true, Bool.or_eq_true, beq_iff_eq, bne_iff_ne, ne_eq, ih]
+        constructor
+        · rintro ⟨hp, hr⟩; exact .step hp hr
+        · intro h
+          cases h with
+          | step hp hr => exact ⟨hp, hr⟩
+
+theorem spec_covers_iff (st : Strategy) (g r : String) : Spec.covers st g r = true ↔ Covers st g r := by
+  cases st with
+  | exact => simp [Spec.covers, Covers]
+  | hierarchic => exact spec_hier_iff g r
+  | wildcard => exact spec_wild_iff _ _
+
+theorem spec_satisfied_iff (m : Option ScopesMatcher) (granted : List String) :
+    Spec.satisfied m granted = true ↔ Satisfied m granted := by
+  unfold Spec.satisfied Satisfied
+  cases m with
+  | none => simp
+  | some m =>
+    simp only [List.all_eq_true, List.any_eq_true, spec_covers_iff, Option.some.injEq, forall_eq']
+
+/-! ## Reading the payload: the decoder computes what the specification reads -/
+
+theorem member_eq_lookup (k : String) (kvs : List (String × Val)) : Spec.member k kvs = lookup k kvs := by
+  induction kvs with
+  | nil => rfl
+  | cons kv r ih =>
+    obtain ⟨k', v⟩ := kv
+    unfold Spec.member at ih ⊢
+    by_cases h : k' = k
+    · simp [List.find?, lookup, h]
+    · simp [List.find?, lookup, h, ih]
+
+/-- the text a textual claim denotes -/
+def textOf : Option Val → String
+  | some (.str s) => s
+  | _ => ""
+
+/-- the instant a date claim denotes -/
+def dateOf : Option Val → Option Int
+  | some (.num m e) => some (Spec.seconds m e)
+  | _ => none
+
+theorem strClaim_eq (kvs : List (String × Val)) (k : String) :
+    strClaim kvs k = if Spec.textOk (lookup k kvs) then some (textOf (lookup k kvs)) else none := by
+  unfold strClaim
+  cases lookup k kvs with
+  | none => rfl
+  | some v => cases v <;> rfl
+
+theorem asStrings_eq (l : List Val) :
+    asStrings l = if (l.all fun v => match v with | .str _ => true | _ => false)
+      then some (l.filterMap fun v => match v with | .str s => some s | _ => none) else none := by
+  induction l with
+  | nil => rfl
+  | cons v r ih =>
+    cases v <;> simp [asStrings, ih]
+
+theorem listClaim_eq (kvs : List (String × Val)) (k : String) :
+    listClaim kvs k = if Spec.stringsOk (lookup k kvs) then some (Spec.strings (lookup k kvs)) else none := by
+  unfold listClaim
+  cases lookup k kvs with
+  | none => rfl
+  | some v =>
+    cases v with
+    | arr l =>
+      show asStrings l = _
+      rw [asStrings_eq]
+      rfl
+    | _ => rfl
+
+theorem dateClaim_eq (kvs : List (String × Val)) (k : String) :
+    dateClaim kvs k = if Spec.dateOk (lookup k kvs) then some (dateOf (lookup k kvs)) else none := by
+  unfold dateClaim
+  cases lookup k kvs with
+  | none => rfl
+  | some v =>
+    cases v with
+    | num m e =>
+      show (if minDate < truncNum m e ∧ truncNum m e ≤ maxDate then some (some (truncNum m e)) else none) =
+        if (decide (-62135596800 < Spec.seconds m e) && decide (Spec.seconds m e ≤ 253402300799)) = true
+          then some (some (Spec.seconds m e)) else none
+      have e1 : truncNum m e = Spec.seconds m e := rfl
+      rw [e1]
+      generalize Spec.seconds m e = t
+      by_cases h : -62135596800 < t ∧ t ≤ 253402300799
+      · have hd : (decide (-62135596800 < t) && decide (t ≤ 253402300799)) = true := by
+          simp only [Bool.and_eq_true, decide_eq_true_eq]; exact h
+        rw [hd]
+        have h' : minDate < t ∧ t ≤ maxDate := h
+        simp [h']
+      · have hd : (decide (-62135596800 < t) && decide (t ≤ 253402300799)) = false := by
+          rw [Bool.eq_false_iff]
+          simp only [ne_eq, Bool.and_eq_true, decide_eq_true_eq]; exact h
+        rw [hd]
+        have h' : ¬ (minDate < t ∧ t ≤ maxDate) := h
+        simp [h']
+    | _ => rfl
+
+/-- the claims the specification reads from a payload -/
+def claimsOf (kvs : List (String × Val)) : Claims :=
+  { iss := textOf (lookup "iss" kvs), aud := Spec.strings (lookup "aud" kvs), scp := Spec.strings (lookup "scp" kvs),
+    scope := Spec.strings (lookup "scope" kvs), exp := dateOf (lookup "exp" kvs), nbf := dateOf (lookup "nbf" kvs),
+    iat := dateOf (lookup "iat" kvs) }
+
+theorem decodeClaims_eq (kvs : List (String × Val)) :
+    decodeClaims kvs = if Spec.wellTyped kvs then some (claimsOf kvs) else none := by
+  simp only [decodeClaims, strClaim_eq, listClaim_eq, dateClaim_eq, Spec.wellTyped, member_eq_lookup, claimsOf,
+    bind, Option.bind]
+  cases Spec.textOk (lookup "iss" kvs) <;> simp
+  cases Spec.textOk (lookup "sub" kvs) <;> simp
+  cases Spec.stringsOk (lookup "aud" kvs) <;> simp
+  cases Spec.stringsOk (lookup "scp" kvs) <;> simp
+  cases Spec.stringsOk (lookup "scope" kvs) <;> simp
+  cases Spec.dateOk (lookup "exp" kvs) <;> simp
+  cases Spec.dateOk (lookup "nbf" kvs) <;> simp
+  cases Spec.dateOk (lookup "iat" kvs) <;> simp
+  cases Spec.textOk (lookup "jti" kvs) <;> simp
+
 /-! ## Assertions -/
 
-/-- the registered-claim conditions of `Entitled` -/
+/-- the registered-claim conditions, on decoded claims -/
 structure ClaimsOk (a : Expectation) (c : Claims) (nowMs : Int) : Prop where
-  issuerTrusted : c.iss ∈ a.issuers
+  issuerTrusted : c.iss ≠ "" ∧ c.iss ∈ a.issuers
   audienceOk : a.audiences = [] ∨ ∃ x ∈ a.audiences, x ∈ c.aud
   scopesOk : Satisfied a.scopes c.granted
   notBefore : ∀ t, c.nbf = some t → t ≤ nowMs / 1000 + a.leewaySec
@@ -155,18 +326,139 @@ theorem audienceOk_iff (e : Expectation) (aud : List String) :
 theorem validate_ok_iff (a : Expectation) (c : Claims) (nowMs : Int) :
     validate a c nowMs = .ok () ↔ ClaimsOk a c nowMs := by
   have key : ClaimsOk a c nowMs ↔
-      a.issuers.contains c.iss = true ∧ audienceOk a c.aud = true ∧ notYetValid a c.nbf nowMs = false ∧
+      (c.iss == "" || !a.issuers.contains c.iss) = false ∧ audienceOk a c.aud = true ∧
+      notYetValid a c.nbf nowMs = false ∧
       expired a c.exp nowMs = false ∧ issuedInFuture a c.iat nowMs = false ∧ a.scopesOk c.granted = true := by
     rw [audienceOk_iff, notYetValid_false_iff, expired_false_iff, issuedInFuture_false_iff, scopesOk_iff]
+    have hi : (c.iss == "" || !a.issuers.contains c.iss) = false ↔ (c.iss ≠ "" ∧ c.iss ∈ a.issuers) := by
+      simp
+    rw [hi]
     constructor
     · rintro ⟨h1, h2, h3, h4, h5, h6⟩
-      exact ⟨by simpa using h1, h2, h4, h5, h6, h3⟩
+      exact ⟨h1, h2, h4, h5, h6, h3⟩
     · rintro ⟨h1, h2, h4, h5, h6, h3⟩
-      exact ⟨by simpa using h1, h2, h3, h4, h5, h6⟩
+      exact ⟨h1, h2, h3, h4, h5, h6⟩
   rw [key]
   unfold validate
-  cases a.issuers.contains c.iss <;> cases audienceOk a c.aud <;> cases notYetValid a c.nbf nowMs <;>
-    cases expired a c.exp nowMs <;> cases issuedInFuture a c.iat nowMs <;> cases a.scopesOk c.granted <;> simp
+  cases (c.iss == "" || !a.issuers.contains c.iss) <;> cases audienceOk a c.aud <;>
+    cases notYetValid a c.nbf nowMs <;> cases expired a c.exp nowMs <;> cases issuedInFuture a c.iat nowMs <;>
+    cases a.scopesOk c.granted <;> simp
+
+/-- the conditions on decoded claims are the conditions of the specification on the raw payload -/
+theorem claimsOk_claimsOf_iff (a : Expectation) (kvs : List (String × Val)) (nowMs : Int) :
+    ClaimsOk a (claimsOf kvs) nowMs ↔
+      (∃ i, Spec.issuer kvs = some i ∧ i ∈ a.issuers) ∧
+      (a.audiences = [] ∨ ∃ x ∈ a.audiences, x ∈ Spec.audiences kvs) ∧
+      Satisfied a.scopes (Spec.granted kvs) ∧
+      (∀ t, Spec.date "nbf" kvs = some t → t ≤ nowMs / 1000 + a.leewaySec) ∧
+      (∀ t, Spec.date "exp" kvs = some t → nowMs / 1000 - a.leewaySec < t) ∧
+      (∀ t, Spec.date "iat" kvs = some t → t * 1000 ≤ nowMs + a.leewayMs) := by
+  have hg : (claimsOf kvs).granted = Spec.granted kvs := by
+    simp only [Claims.granted, claimsOf, Spec.granted, member_eq_lookup]
+    by_cases h : Spec.strings (lookup "scp" kvs) = [] <;> simp [h]
+  have ha : (claimsOf kvs).aud = Spec.audiences kvs := by
+    simp only [claimsOf, Spec.audiences, member_eq_lookup]
+  have hd : ∀ k, Spec.date k kvs = dateOf (lookup k kvs) := by
+    intro k
+    simp only [Spec.date, member_eq_lookup, dateOf]
+    cases lookup k kvs with
+    | none => rfl
+    | some v => cases v <;> rfl
+  have hi : ((claimsOf kvs).iss ≠ "" ∧ (claimsOf kvs).iss ∈ a.issuers) ↔
+      ∃ i, Spec.issuer kvs = some i ∧ i ∈ a.issuers := by
+    simp only [claimsOf, Spec.issuer, member_eq_lookup]
+    cases lookup "iss" kvs with
+    | none => simp [textOf]
+    | some v =>
+      cases v with
+      | str s =>
+        by_cases hs : s = ""
+        · simp [textOf, hs]
+        · simp [textOf, hs]
+      | _ => simp [textOf]
+  constructor
+  · rintro ⟨h1, h2, h3, h4, h5, h6⟩
+    refine ⟨hi.mp h1, ha ▸ h2, hg ▸ h3, ?_, ?_, ?_⟩
+    · intro t ht; exact h4 t (by rw [hd] at ht; exact ht)
+    · intro t ht; exact h5 t (by rw [hd] at ht; exact ht)
+    · intro t ht; exact h6 t (by rw [hd] at ht; exact ht)
+  · rintro ⟨h1, h2, h3, h4, h5, h6⟩
+    refine ⟨hi.mpr h1, ha ▸ h2, hg ▸ h3, ?_, ?_, ?_⟩
+    · intro t ht; exact h4 t (by rw [hd]; exact ht)
+    · intro t ht; exact h5 t (by rw [hd]; exact ht)
+    · intro t ht; exact h6 t (by rw [hd]; exact ht)
+
+/-! ## Configuration levels, metadata, endpoint -/
+
+theorem firstSet_nil {α : Type} : Spec.firstSet ([] : List (List α)) = [] := rfl
+
+theorem firstSet_cons {α : Type} (l : List α) (ls : List (List α)) :
+    Spec.firstSet (l :: ls) = if l = [] then Spec.firstSet ls else l := by
+  cases l <;> simp [Spec.firstSet, List.find?]
+
+theorem firstNonZero_cons (l : Int) (ls : List Int) :
+    ((l :: ls).find? fun x => x != 0).getD 0 = if l = 0 then (ls.find? fun x => x != 0).getD 0 else l := by
+  by_cases h : l = 0
+  · simp [List.find?, h]
+  · have hb : (l != 0) = true := by simpa using h
+    simp [List.find?, hb, h]
+
+theorem Expectation.ext' {a b : Expectation} (h1 : a.issuers = b.issuers) (h2 : a.scopes = b.scopes)
+    (h3 : a.audiences = b.audiences) (h4 : a.algs = b.algs) (h5 : a.leeway = b.leeway) : a = b := by
+  cases a; cases b; simp_all
+
+theorem effective_eq_inForce (cfg : Config) (rule : Option Expectation) (metaIssuer : String) :
+    effective cfg rule metaIssuer = Spec.inForce cfg rule metaIssuer := by
+  cases rule with
+  | none =>
+    apply Expectation.ext' <;>
+      simp only [effective, Spec.inForce, Spec.levels, Expectation.merge, List.nil_append,
+        List.map_cons, List.map_nil, List.cons_append, List.findSome?_cons, List.findSome?_nil,
+        firstSet_cons, firstSet_nil, firstNonZero_cons, List.find?_nil, Option.getD_none]
+    · by_cases h : cfg.assertions.issuers = [] <;> simp [h]
+    · cases cfg.assertions.scopes <;> simp
+    · by_cases h : cfg.assertions.audiences = [] <;> simp [h]
+    · by_cases h : cfg.assertions.algs = [] <;> by_cases hd : Gen.defaultAllowed = [] <;> simp [h, hd]
+    · by_cases h : cfg.assertions.leeway = 0 <;> simp [h]
+  | some r =>
+    apply Expectation.ext' <;>
+      simp only [effective, Spec.inForce, Spec.levels, Expectation.merge,
+        List.map_cons, List.map_nil, List.cons_append, List.nil_append, List.findSome?_cons, List.findSome?_nil,
+        firstSet_cons, firstSet_nil, firstNonZero_cons, List.find?_nil, Option.getD_none]
+    · by_cases h : cfg.assertions.issuers = [] <;> by_cases hr : r.issuers = [] <;> simp [h, hr]
+    · cases r.scopes <;> cases cfg.assertions.scopes <;> simp
+    · by_cases h : cfg.assertions.audiences = [] <;> by_cases hr : r.audiences = [] <;> simp [h, hr]
+    · by_cases h : cfg.assertions.algs = [] <;> by_cases hr : r.algs = [] <;>
+        by_cases hd : Gen.defaultAllowed = [] <;> simp [h, hr, hd]
+    · by_cases h : cfg.assertions.leeway = 0 <;> by_cases hr : r.leeway = 0 <;> simp [h, hr]
+
+theorem resolveMetadata_ok_iff (cfg : Config) (w : World) (md : Metadata) :
+    resolveMetadata cfg w = .ok md ↔ Spec.metadata cfg w = some md := by
+  unfold resolveMetadata Spec.metadata
+  cases cfg.jwksMode with
+  | true => simp [eq_comm]
+  | false =>
+    cases w.metadata with
+    | none => simp
+    | some m => cases hm : m.hasJwks <;> simp [hm]
+
+theorem resolveMetadata_error_iff (cfg : Config) (w : World) :
+    (∃ why, resolveMetadata cfg w = .error why) ↔ Spec.metadata cfg w = none := by
+  unfold resolveMetadata Spec.metadata
+  cases cfg.jwksMode with
+  | true => simp
+  | false =>
+    cases w.metadata with
+    | none => simp
+    | some m => cases hm : m.hasJwks <;> simp [hm]
+
+theorem endpointOf_eq (cfg : Config) (kvs : List (String × Val)) : endpointOf cfg kvs = Spec.endpoint cfg kvs := by
+  unfold endpointOf Spec.endpoint
+  rw [member_eq_lookup]
+  cases cfg.jwksMode <;> cases cfg.templated <;> simp
+  cases lookup "iss" kvs with
+  | none => rfl
+  | some v => cases v <;> rfl
 
 /-! ## Keys -/
 
@@ -174,18 +466,37 @@ theorem verifyWithKey_ok_iff (a : Expectation) (tok : Token) (kvs : List (String
     verifyWithKey a tok kvs nowMs k = .ok () ↔
       (tok.alg = "" ∨ k.alg = tok.alg) ∧ k.alg ∈ a.algs ∧
       (k.usable = true ∧ tok.critOk = true ∧ tok.sigOk k.mat = true) ∧
-      ∃ c, decodeClaims kvs = some c ∧ ClaimsOk a c nowMs := by
+      Spec.wellTyped kvs = true ∧ ClaimsOk a (claimsOf kvs) nowMs := by
   have e1 : (tok.alg = "" ∨ k.alg = tok.alg) ↔ algAgrees tok k = true := by simp [algAgrees]
   have e2 : k.alg ∈ a.algs ↔ a.algs.contains k.alg = true := by simp
   have e3 : (k.usable = true ∧ tok.critOk = true ∧ tok.sigOk k.mat = true) ↔ signedBy tok k = true := by
     simp [signedBy, and_assoc]
   rw [e1, e2, e3]
   unfold verifyWithKey
+  rw [decodeClaims_eq]
   cases algAgrees tok k <;> cases a.algs.contains k.alg <;> cases signedBy tok k <;>
-    cases decodeClaims kvs <;> simp [validate_ok_iff]
+    cases Spec.wellTyped kvs <;> simp [validate_ok_iff]
 
 theorem certAccepted_iff (v : Bool) (k : Key) : certAccepted v k = true ↔ (v = true → k.cert ≠ .untrusted) := by
   cases v <;> simp [certAccepted]
+
+theorem selectByKid_ok_iff (v : Bool) (ks : List Key) (kid : String) (k : Key) :
+    selectByKid v ks kid = .ok k ↔ ks.filter (fun k' => k'.kid = kid) = [k] ∧ certAccepted v k = true := by
+  unfold selectByKid
+  cases hf : ks.filter (fun k' => decide (k'.kid = kid)) with
+  | nil => simp
+  | cons k1 rest =>
+    cases rest with
+    | nil =>
+      by_cases hc : certAccepted v k1 = true
+      · simp only [hc, ↓reduceIte, Except.ok.injEq, List.cons.injEq, and_true]
+        constructor
+        · rintro rfl; exact ⟨rfl, hc⟩
+        · rintro ⟨rfl, _⟩; rfl
+      · simp only [hc, Bool.false_eq_true, ↓reduceIte, reduceCtorEq, List.cons.injEq, and_true, false_iff,
+          not_and]
+        rintro rfl; exact hc
+    | cons k2 rest2 => simp
 
 /-- key selection: success is always owed to one key of the set -/
 theorem verify_ok_iff (a : Expectation) (v : Bool) (ks : List Key) (tok : Token) (kvs : List (String × Val))
@@ -196,6 +507,7 @@ theorem verify_ok_iff (a : Expectation) (v : Bool) (ks : List Key) (tok : Token)
   unfold verify
   by_cases hk : tok.kid = ""
   · simp only [hk, ↓reduceIte, ne_eq, not_true_eq_false, false_implies, true_and]
+    unfold verifyNoKid
     by_cases hany : ((ks.filter (certAccepted v)).any fun k => okB (verifyWithKey a tok kvs nowMs k)) = true
     · simp only [hany, ↓reduceIte, true_iff]
       obtain ⟨k, hkm, hok⟩ := List.any_eq_true.mp hany
@@ -209,31 +521,157 @@ theorem verify_ok_iff (a : Expectation) (v : Bool) (ks : List Key) (tok : Token)
       apply hany
       exact List.any_eq_true.mpr ⟨k, List.mem_filter.mpr ⟨hin, hc⟩, by simp [hv, okB]⟩
   · simp only [hk, ↓reduceIte, ne_eq, not_false_eq_true, true_implies]
-    cases hf : ks.filter (fun k' => decide (k'.kid = tok.kid)) with
-    | nil =>
+    cases hs : selectByKid v ks tok.kid with
+    | error e =>
       simp only [reduceCtorEq, false_iff, not_exists, not_and]
-      intro k _ h; cases h
-    | cons k rest =>
-      cases rest with
-      | nil =>
-        have hin : k ∈ ks := (List.mem_filter.mp (hf ▸ List.mem_cons_self)).1
-        by_cases hc : certAccepted v k = true
-        · simp only [hc, ↓reduceIte]
-          constructor
-          · intro h; exact ⟨k, hin, rfl, hc, h⟩
-          · rintro ⟨k', _, he, _, hv⟩
-            cases he; exact hv
-        · simp only [hc, Bool.false_eq_true, ↓reduceIte, reduceCtorEq, false_iff, not_exists, not_and]
-          intro k' _ he hc'
-          cases he; exact absurd hc' hc
-      | cons k2 rest2 =>
-        simp only [reduceCtorEq, false_iff, not_exists, not_and]
-        intro k' _ h; cases h
+      intro k _ hf hc
+      have := (selectByKid_ok_iff v ks tok.kid k).mpr ⟨hf, hc⟩
+      rw [hs] at this; cases this
+    | ok k =>
+      obtain ⟨hf, hc⟩ := (selectByKid_ok_iff v ks tok.kid k).mp hs
+      have hin : k ∈ ks := (List.mem_filter.mp (hf ▸ List.mem_cons_self)).1
+      simp only
+      constructor
+      · intro h; exact ⟨k, hin, hf, hc, h⟩
+      · rintro ⟨k', _, hf', _, hv⟩
+        rw [hf] at hf'; cases hf'; exact hv
+
+/-- what `verify` establishes, in the vocabulary of the specification (for a token whose `alg` is not empty) -/
+theorem verify_ok_iff_entitled (a : Expectation) (v : Bool) (ks : List Key) (tok : Token) (kvs : List (String × Val))
+    (nowMs : Int) (halg : tok.alg ≠ "") :
+    verify a v ks tok kvs nowMs = .ok () ↔ ∃ k, Entitled a v ks tok kvs nowMs k := by
+  rw [verify_ok_iff]
+  constructor
+  · rintro ⟨k, hin, hdes, hcert, hv⟩
+    obtain ⟨halg', hallowed, hsig, hwt, hok⟩ := (verifyWithKey_ok_iff a tok kvs nowMs k).mp hv
+    have hagree : k.alg = tok.alg := halg'.resolve_left halg
+    obtain ⟨h1, h2, h3, h4, h5, h6⟩ := (claimsOk_claimsOf_iff a kvs nowMs).mp hok
+    exact ⟨k, ⟨hin, hdes, (certAccepted_iff v k).mp hcert, hagree, hallowed, hsig, hwt, h1, h2, h3, h4, h5, h6⟩⟩
+  · rintro ⟨k, e⟩
+    refine ⟨k, e.fromKeySet, e.designated, (certAccepted_iff v k).mpr e.certificate, ?_⟩
+    exact (verifyWithKey_ok_iff a tok kvs nowMs k).mpr ⟨Or.inr e.algAgrees, e.algAllowed, e.signed, e.wellTyped,
+      (claimsOk_claimsOf_iff a kvs nowMs).mpr
+        ⟨e.issuerTrusted, e.audienceOk, e.scopesOk, e.notBefore, e.notExpired, e.issued⟩⟩
+
+/-- a payload without members (the document `null`) never gets through: it names no issuer -/
+theorem verify_nil_not_ok (a : Expectation) (v : Bool) (ks : List Key) (tok : Token) (nowMs : Int) :
+    verify a v ks tok [] nowMs ≠ .ok () := by
+  intro h
+  obtain ⟨k, _, _, _, hv⟩ := (verify_ok_iff a v ks tok [] nowMs).mp h
+  obtain ⟨_, _, _, _, hok⟩ := (verifyWithKey_ok_iff a tok [] nowMs k).mp hv
+  exact hok.issuerTrusted.1 rfl
+
+/-! ## Numbers -/
+
+theorem roundF64Nat_small (a : Nat) (h : a ≤ 2 ^ 53) : roundF64Nat a = a := by
+  unfold roundF64Nat
+  by_cases hb : a.log2 + 1 ≤ 53
+  · simp [hb]
+  · have h0 : a ≠ 0 := by
+      rintro rfl
+      simp at hb
+    have h1 : ¬ a < 2 ^ 53 := by
+      intro hlt
+      have := (Nat.log2_lt h0).mpr hlt
+      omega
+    have : a = 2 ^ 53 := by omega
+    subst this
+    decide
+
+theorem roundF64_small (m : Int) (h : m.natAbs ≤ 2 ^ 53) : roundF64 m = m := by
+  cases m with
+  | ofNat a => simp only [roundF64]; rw [roundF64Nat_small a (by simpa using h)]
+  | negSucc a =>
+    simp only [roundF64]
+    rw [roundF64Nat_small (a + 1) (by simpa [Int.natAbs] using h)]
+    rfl
+
+mutual
+theorem Val.round_of_floatSafe : ∀ v : Val, v.floatSafe = true → v.round = v
+  | .null, _ => rfl
+  | .bool _, _ => rfl
+  | .str _, _ => rfl
+  | .num m 0, h => by
+    simp only [Val.floatSafe, decide_eq_true_eq] at h
+    simp only [Val.round, roundF64_small m h]
+  | .num _ (_ + 1), _ => rfl
+  | .arr l, h => by
+    simp only [Val.floatSafe] at h
+    simp only [Val.round, roundList_of_safe l h]
+  | .obj kvs, h => by
+    simp only [Val.floatSafe] at h
+    simp only [Val.round, roundFields_of_safe kvs h]
+theorem roundList_of_safe : ∀ l : List Val, safeList l = true → roundList l = l
+  | [], _ => rfl
+  | v :: r, h => by
+    simp only [safeList, Bool.and_eq_true] at h
+    simp only [roundList, Val.round_of_floatSafe v h.1, roundList_of_safe r h.2]
+theorem roundFields_of_safe : ∀ kvs : List (String × Val), safeFields kvs = true → roundFields kvs = kvs
+  | [], _ => rfl
+  | (k, v) :: r, h => by
+    simp only [safeFields, Bool.and_eq_true] at h
+    simp only [roundFields, Val.round_of_floatSafe v h.1, roundFields_of_safe r h.2]
+end
+
+theorem lookup_floatSafe (k : String) : ∀ (kvs : List (String × Val)) (v : Val),
+    safeFields kvs = true → lookup k kvs = some v → v.floatSafe = true
+  | [], _, _, h => by simp [lookup] at h
+  | (k', v') :: r, v, hs, h => by
+    simp only [safeFields, Bool.and_eq_true] at hs
+    simp only [lookup] at h
+    split at h
+    · cases h; exact hs.1
+    · exact lookup_floatSafe k r v hs.2 h
+
+theorem getElem_floatSafe : ∀ (l : List Val) (i : Nat) (v : Val),
+    safeList l = true → l[i]? = some v → v.floatSafe = true
+  | [], _, _, _, h => by simp at h
+  | v' :: r, 0, v, hs, h => by
+    simp only [safeList, Bool.and_eq_true] at hs
+    simp only [List.getElem?_cons_zero, Option.some.injEq] at h
+    cases h; exact hs.1
+  | v' :: r, i + 1, v, hs, h => by
+    simp only [safeList, Bool.and_eq_true] at hs
+    simp only [List.getElem?_cons_succ] at h
+    exact getElem_floatSafe r i v hs.2 h
+
+/-- a part of a float-safe value is float-safe -/
+theorem get_floatSafe : ∀ (path : List Seg) (pl v : Val), pl.floatSafe = true → pl.get path = some v →
+    v.floatSafe = true
+  | [], pl, v, hs, h => by
+    simp only [Val.get, Option.some.injEq] at h
+    cases h; exact hs
+  | s :: r, pl, v, hs, h => by
+    cases pl with
+    | obj kvs =>
+      simp only [Val.get] at h
+      cases hl : lookup s.key kvs with
+      | none => simp [hl] at h
+      | some v' =>
+        simp only [hl] at h
+        simp only [Val.floatSafe] at hs
+        exact get_floatSafe r v' v (lookup_floatSafe _ kvs v' hs hl) h
+    | arr l =>
+      simp only [Val.get] at h
+      cases hi : s.idx with
+      | none => simp [hi] at h
+      | some i =>
+        simp only [hi] at h
+        cases hl : l[i]? with
+        | none => simp [hl] at h
+        | some v' =>
+          simp only [hl] at h
+          simp only [Val.floatSafe] at hs
+          exact get_floatSafe r v' v (getElem_floatSafe l i v' hs hl) h
+    | null => simp [Val.get] at h
+    | bool _ => simp [Val.get] at h
+    | num _ _ => simp [Val.get] at h
+    | str _ => simp [Val.get] at h
 
 /-! ## Subject -/
 
 theorem subject_accepted_iff (sc : SubjectConf) (pl : Val) (id : String) (attrs : Val) :
-    subject sc pl = .accepted id attrs ↔ SubjectOf sc pl id attrs := by
+    subject sc pl = .accepted id attrs ↔ ∃ attrs₀, SubjectOf sc pl id attrs₀ ∧ attrs = attrs₀.round := by
   unfold subject SubjectOf
   cases hg : pl.get sc.idPath with
   | none => simp
@@ -245,9 +683,9 @@ theorem subject_accepted_iff (sc : SubjectConf) (pl : Val) (id : String) (attrs 
       simp only [Option.some.injEq]
       by_cases he : id' = ""
       · subst he
-        simp only [↓reduceIte, reduceCtorEq, false_iff]
-        rintro ⟨rfl, h, _⟩
-        exact h rfl
+        simp only [↓reduceIte, reduceCtorEq, false_iff, not_exists, not_and]
+        rintro _ ⟨rfl, h, _⟩
+        exact absurd rfl h
       · simp only [he, ↓reduceIte]
         cases hs : attrsSource sc pl with
         | none => simp
@@ -257,29 +695,30 @@ theorem subject_accepted_iff (sc : SubjectConf) (pl : Val) (id : String) (attrs 
             simp only [Outcome.accepted.injEq, Option.some.injEq, Val.obj.injEq]
             constructor
             · rintro ⟨rfl, rfl⟩
-              exact ⟨rfl, he, kvs, rfl, rfl⟩
-            · rintro ⟨rfl, _, kvs', rfl, rfl⟩
+              exact ⟨.obj kvs, ⟨rfl, he, kvs, rfl, rfl⟩, rfl⟩
+            · rintro ⟨_, ⟨rfl, _, kvs', rfl, rfl⟩, rfl⟩
               exact ⟨rfl, rfl⟩
           | _ => simp
 
-/-! ## The ladder as a whole -/
+theorem subject_verdict (sc : SubjectConf) (pl : Val) :
+    (subject sc pl).verdict = (Spec.subjectOf sc pl).rounded := by
+  unfold subject Spec.subjectOf
+  cases pl.get sc.idPath with
+  | none => rfl
+  | some v =>
+    simp only [Option.map_some]
+    cases idString v with
+    | none => rfl
+    | some id =>
+      simp only
+      by_cases he : id = ""
+      · simp [he, Outcome.verdict, Verdict.rounded]
+      · simp only [he, ↓reduceIte]
+        cases attrsSource sc pl with
+        | none => rfl
+        | some src => cases src <;> rfl
 
-/-- what `verify` establishes, in the vocabulary of the specification (for a token whose `alg` is not empty) -/
-theorem verify_ok_iff_entitled (a : Expectation) (v : Bool) (ks : List Key) (tok : Token) (kvs : List (String × Val))
-    (nowMs : Int) (halg : tok.alg ≠ "") :
-    verify a v ks tok kvs nowMs = .ok () ↔
-      ∃ c k, decodeClaims kvs = some c ∧ Entitled a v ks tok c nowMs k := by
-  rw [verify_ok_iff]
-  constructor
-  · rintro ⟨k, hin, hdes, hcert, hv⟩
-    obtain ⟨halg', hallowed, hsig, c, hc, hok⟩ := (verifyWithKey_ok_iff a tok kvs nowMs k).mp hv
-    have hagree : k.alg = tok.alg := halg'.resolve_left halg
-    exact ⟨c, k, hc, ⟨hin, hdes, (certAccepted_iff v k).mp hcert, hagree, hallowed, hsig, hok.issuerTrusted,
-      hok.audienceOk, hok.scopesOk, hok.notBefore, hok.notExpired, hok.issued⟩⟩
-  · rintro ⟨c, k, hc, e⟩
-    refine ⟨k, e.fromKeySet, e.designated, (certAccepted_iff v k).mpr e.certificate, ?_⟩
-    exact (verifyWithKey_ok_iff a tok kvs nowMs k).mpr ⟨Or.inr e.algAgrees, e.algAllowed, e.signed, c, hc,
-      ⟨e.issuerTrusted, e.audienceOk, e.scopesOk, e.notBefore, e.notExpired, e.issued⟩⟩
+/-! ## The ladder as a whole -/
 
 theorem supported_nonempty_alg (h : Gen.supported.contains "" = false) {alg : String}
     (hs : alg ∈ Gen.supported) : alg ≠ "" := by
@@ -287,11 +726,13 @@ theorem supported_nonempty_alg (h : Gen.supported.contains "" = false) {alg : St
   have : Gen.supported.contains "" = true := by simpa using hs
   rw [h] at this; cases this
 
-/-- `authenticate` yields a subject exactly in the situations described by `Accepts` -/
+/-- `authenticate` yields a subject exactly in the situations described by `Accepts`; the attributes are those of
+the specification with numbers rounded to doubles -/
 theorem authenticate_accepted_iff (hempty : Gen.supported.contains "" = false)
     (cfg : Config) (rule : Option Expectation) (w : World) (p : Presented) (nowMs : Int)
     (id : String) (attrs : Val) :
-    authenticate cfg rule w p nowMs = .accepted id attrs ↔ Accepts cfg rule w p nowMs id attrs := by
+    authenticate cfg rule w p nowMs = .accepted id attrs ↔
+      ∃ attrs₀, Accepts cfg rule w p nowMs id attrs₀ ∧ attrs = attrs₀.round := by
   constructor
   · intro h
     unfold authenticate at h
@@ -312,69 +753,96 @@ theorem authenticate_accepted_iff (hempty : Gen.supported.contains "" = false)
             rw [hsup] at this; cases this
           simp [hsup'] at h
         | true =>
-          simp only [hsup, Bool.not_true, Bool.false_eq_true, ↓reduceIte] at h
-          have hmem : tok.alg ∈ Gen.supported := by simpa using hsup
-          have halg : tok.alg ≠ "" := supported_nonempty_alg hempty hmem
-          cases hpl : tok.payload with
-          | none => simp [hpl] at h
-          | some pl =>
-            simp only [hpl] at h
-            cases hkvs : pl.members with
-            | none => simp [hkvs] at h
-            | some kvs =>
-              simp only [hkvs] at h
-              cases hmd : resolveMetadata cfg w with
-              | error e => simp [hmd] at h
-              | ok md =>
-                simp only [hmd] at h
-                cases hjw : w.jwks with
-                | none => simp [hjw] at h
-                | some ks =>
-                  simp only [hjw] at h
-                  cases hv : verify (effective cfg rule md.issuer) cfg.validateJwk ks tok kvs nowMs with
-                  | error e => simp [hv] at h
-                  | ok u =>
-                    cases u
-                    simp only [hv] at h
-                    obtain ⟨c, k, hc, he⟩ := (verify_ok_iff_entitled _ _ ks tok kvs nowMs halg).mp hv
-                    exact ⟨tok, pl, kvs, md, ks, c, k, hcfg, rfl, hmem, hpl, hkvs, hmd, hjw, hc, he,
-                      (subject_accepted_iff _ _ _ _).mp h⟩
-  · rintro ⟨tok, pl, kvs, md, ks, c, k, hcfg, rfl, hmem, hpl, hkvs, hmd, hjw, hc, he, hs⟩
+          cases hcan : tok.canonical with
+          | false => simp [hcan] at h
+          | true =>
+            simp only [hsup, hcan, Bool.and_self, Bool.not_true, Bool.false_eq_true, ↓reduceIte] at h
+            have hmem : tok.alg ∈ Gen.supported := by simpa using hsup
+            have halg : tok.alg ≠ "" := supported_nonempty_alg hempty hmem
+            cases hpl : tok.payload with
+            | none => simp [hpl] at h
+            | some pl =>
+              simp only [hpl] at h
+              cases hkvs : pl.members with
+              | none => simp [hkvs] at h
+              | some kvs =>
+                simp only [hkvs] at h
+                cases hmd : resolveMetadata cfg w with
+                | error e => simp [hmd] at h
+                | ok md =>
+                  simp only [hmd] at h
+                  cases hjw : w.jwks (endpointOf cfg kvs) with
+                  | none => simp [hjw] at h
+                  | some ks =>
+                    simp only [hjw] at h
+                    cases hv : verify (effective cfg rule md.issuer) cfg.validateJwk ks tok kvs nowMs with
+                    | error e => simp [hv, finish] at h
+                    | ok u =>
+                      cases u
+                      simp only [hv, finish] at h
+                      -- the payload is an object: `null` never verifies
+                      cases pl with
+                      | obj kvs' =>
+                        simp only [Val.members, Option.some.injEq] at hkvs
+                        subst hkvs
+                        rw [effective_eq_inForce] at hv
+                        obtain ⟨k, he⟩ := (verify_ok_iff_entitled _ _ ks tok kvs' nowMs halg).mp hv
+                        obtain ⟨attrs₀, hs, rfl⟩ := (subject_accepted_iff _ _ _ _).mp h
+                        rw [endpointOf_eq] at hjw
+                        exact ⟨attrs₀, ⟨tok, kvs', md, ks, k, hcfg, rfl, hmem, hcan, hpl,
+                          (resolveMetadata_ok_iff cfg w md).mp hmd, hjw, he, hs⟩, rfl⟩
+                      | null =>
+                        simp only [Val.members, Option.some.injEq] at hkvs
+                        subst hkvs
+                        exact absurd hv (verify_nil_not_ok _ _ _ _ _)
+                      | bool _ => simp [Val.members] at hkvs
+                      | num _ _ => simp [Val.members] at hkvs
+                      | str _ => simp [Val.members] at hkvs
+                      | arr _ => simp [Val.members] at hkvs
+  · rintro ⟨attrs₀, ⟨tok, kvs, md, ks, k, hcfg, rfl, hmem, hcan, hpl, hmd, hjw, he, hs⟩, rfl⟩
     have hsup : Gen.supported.contains tok.alg = true := by simpa using hmem
     have halg : tok.alg ≠ "" := supported_nonempty_alg hempty hmem
-    have hv := (verify_ok_iff_entitled (effective cfg rule md.issuer) cfg.validateJwk ks tok kvs nowMs halg).mpr
-      ⟨c, k, hc, he⟩
+    have hv := (verify_ok_iff_entitled (Spec.inForce cfg rule md.issuer) cfg.validateJwk ks tok kvs nowMs halg).mpr
+      ⟨k, he⟩
+    rw [← effective_eq_inForce] at hv
+    rw [← endpointOf_eq] at hjw
+    have hmd' := (resolveMetadata_ok_iff cfg w md).mpr hmd
     unfold authenticate
-    simp only [hcfg, Bool.not_true, Bool.false_eq_true, ↓reduceIte, hsup, hpl, hkvs, hmd, hjw, hv]
-    exact (subject_accepted_iff _ _ _ _).mpr hs
+    simp only [hcfg, Bool.not_true, Bool.false_eq_true, ↓reduceIte, hsup, hcan, Bool.and_self, hpl, Val.members,
+      hmd', hjw, hv, finish]
+    exact (subject_accepted_iff _ _ _ _).mpr ⟨attrs₀, hs, rfl⟩
 
 /-! ## The executable specification -/
 
-theorem entitledB_iff (a : Expectation) (v : Bool) (ks : List Key) (tok : Token) (c : Claims) (nowMs : Int)
-    (k : Key) (hin : k ∈ ks) :
-    Spec.entitledB a v ks tok c nowMs k = true ↔ Entitled a v ks tok c nowMs k := by
-  have hnbf : (match c.nbf with | some t => decide (t ≤ nowMs / 1000 + a.leewaySec) | none => true) = true ↔
-      ∀ t, c.nbf = some t → t ≤ nowMs / 1000 + a.leewaySec := by
-    cases c.nbf <;> simp
-  have hexp : (match c.exp with | some t => decide (nowMs / 1000 - a.leewaySec < t) | none => true) = true ↔
-      ∀ t, c.exp = some t → nowMs / 1000 - a.leewaySec < t := by
-    cases c.exp <;> simp
-  have hiat : (match c.iat with | some t => decide (t * 1000 ≤ nowMs + a.leewayMs) | none => true) = true ↔
-      ∀ t, c.iat = some t → t * 1000 ≤ nowMs + a.leewayMs := by
-    cases c.iat <;> simp
-  unfold Spec.entitledB
-  simp only [Bool.and_eq_true, scopesOk_iff, Bool.or_eq_true, beq_iff_eq, Bool.not_eq_true',
+theorem entitles_iff (a : Expectation) (v : Bool) (ks : List Key) (tok : Token) (kvs : List (String × Val))
+    (nowMs : Int) (k : Key) (hin : k ∈ ks) :
+    Spec.entitles a v ks tok kvs nowMs k = true ↔ Entitled a v ks tok kvs nowMs k := by
+  have hnbf : (match Spec.date "nbf" kvs with | some t => decide (t ≤ nowMs / 1000 + a.leewaySec) | none => true) = true ↔
+      ∀ t, Spec.date "nbf" kvs = some t → t ≤ nowMs / 1000 + a.leewaySec := by
+    cases Spec.date "nbf" kvs <;> simp
+  have hexp : (match Spec.date "exp" kvs with | some t => decide (nowMs / 1000 - a.leewaySec < t) | none => true) = true ↔
+      ∀ t, Spec.date "exp" kvs = some t → nowMs / 1000 - a.leewaySec < t := by
+    cases Spec.date "exp" kvs <;> simp
+  have hiat : (match Spec.date "iat" kvs with | some t => decide (t * 1000 ≤ nowMs + a.leewayMs) | none => true) = true ↔
+      ∀ t, Spec.date "iat" kvs = some t → t * 1000 ≤ nowMs + a.leewayMs := by
+    cases Spec.date "iat" kvs <;> simp
+  have hiss : (match Spec.issuer kvs with | some i => decide (i ∈ a.issuers) | none => false) = true ↔
+      ∃ i, Spec.issuer kvs = some i ∧ i ∈ a.issuers := by
+    cases Spec.issuer kvs <;> simp
+  unfold Spec.entitles
+  simp only [Bool.and_eq_true, spec_satisfied_iff, Bool.or_eq_true, beq_iff_eq, Bool.not_eq_true',
     bne_iff_ne, ne_eq, List.contains_eq_mem, decide_eq_true_eq, List.isEmpty_iff, List.any_eq_true]
   constructor
-  · rintro ⟨⟨⟨⟨⟨⟨⟨⟨⟨⟨⟨⟨h1, h2⟩, h3⟩, h4⟩, h5⟩, h6⟩, h7⟩, h8⟩, h9⟩, h10⟩, h11⟩, h12⟩, h13⟩
-    refine ⟨hin, ?_, ?_, h3, h4, ⟨h5, h6, h7⟩, h8, h9, h10, hnbf.mp h11, hexp.mp h12, hiat.mp h13⟩
+  · rintro ⟨⟨⟨⟨⟨⟨⟨⟨⟨⟨⟨⟨⟨h1, h2⟩, h3⟩, h4⟩, h5⟩, h6⟩, h7⟩, hw⟩, h8⟩, h9⟩, h10⟩, h11⟩, h12⟩, h13⟩
+    refine ⟨hin, ?_, ?_, h3, h4, ⟨h5, h6, h7⟩, hw, hiss.mp h8, h9, h10, hnbf.mp h11, hexp.mp h12, hiat.mp h13⟩
     · intro hk; exact h1.resolve_left hk
     · intro hv; rcases h2 with h2 | h2
       · rw [hv] at h2; cases h2
       · exact h2
   · intro e
-    refine ⟨⟨⟨⟨⟨⟨⟨⟨⟨⟨⟨⟨?_, ?_⟩, e.algAgrees⟩, e.algAllowed⟩, e.signed.1⟩, e.signed.2.1⟩, e.signed.2.2⟩,
-      e.issuerTrusted⟩, e.audienceOk⟩, e.scopesOk⟩, hnbf.mpr e.notBefore⟩, hexp.mpr e.notExpired⟩, hiat.mpr e.issued⟩
+    refine ⟨⟨⟨⟨⟨⟨⟨⟨⟨⟨⟨⟨⟨?_, ?_⟩, e.algAgrees⟩, e.algAllowed⟩, e.signed.1⟩, e.signed.2.1⟩, e.signed.2.2⟩,
+      e.wellTyped⟩, hiss.mpr e.issuerTrusted⟩, e.audienceOk⟩, e.scopesOk⟩, hnbf.mpr e.notBefore⟩,
+      hexp.mpr e.notExpired⟩, hiat.mpr e.issued⟩
     · by_cases hk : tok.kid = ""
       · exact Or.inl hk
       · exact Or.inr (e.designated hk)
@@ -384,75 +852,282 @@ theorem entitledB_iff (a : Expectation) (v : Bool) (ks : List Key) (tok : Token)
 
 theorem verify_isOk_iff_any (a : Expectation) (v : Bool) (ks : List Key) (tok : Token) (kvs : List (String × Val))
     (nowMs : Int) (halg : tok.alg ≠ "") :
-    verify a v ks tok kvs nowMs = .ok () ↔
-      ∃ c, decodeClaims kvs = some c ∧ ks.any (Spec.entitledB a v ks tok c nowMs) = true := by
+    verify a v ks tok kvs nowMs = .ok () ↔ ks.any (Spec.entitles a v ks tok kvs nowMs) = true := by
   rw [verify_ok_iff_entitled a v ks tok kvs nowMs halg]
   constructor
-  · rintro ⟨c, k, hc, he⟩
-    exact ⟨c, hc, List.any_eq_true.mpr ⟨k, he.fromKeySet, (entitledB_iff a v ks tok c nowMs k he.fromKeySet).mpr he⟩⟩
-  · rintro ⟨c, hc, hany⟩
+  · rintro ⟨k, he⟩
+    exact List.any_eq_true.mpr ⟨k, he.fromKeySet, (entitles_iff a v ks tok kvs nowMs k he.fromKeySet).mpr he⟩
+  · intro hany
     obtain ⟨k, hin, hb⟩ := List.any_eq_true.mp hany
-    exact ⟨c, k, hc, (entitledB_iff a v ks tok c nowMs k hin).mp hb⟩
+    exact ⟨k, (entitles_iff a v ks tok kvs nowMs k hin).mp hb⟩
 
-/-- the executable specification gives the verdict of the model -/
+theorem finish_error_verdict (sc : SubjectConf) (pl : Val) (r : Except Why Unit) (h : r ≠ .ok ()) :
+    (finish sc pl r).verdict = .refused := by
+  cases r with
+  | error e => rfl
+  | ok u => cases u; exact absurd rfl h
+
+/-- the executable specification gives the verdict of the model, up to the rounding of attribute numbers -/
 theorem spec_authenticate_eq (hempty : Gen.supported.contains "" = false)
     (cfg : Config) (rule : Option Expectation) (w : World) (p : Presented) (nowMs : Int) :
-    Spec.authenticate cfg rule w p nowMs = (authenticate cfg rule w p nowMs).verdict := by
+    (authenticate cfg rule w p nowMs).verdict = (Spec.authenticate cfg rule w p nowMs).rounded := by
   unfold Spec.authenticate authenticate
+  by_cases hbad : cfg.jwksMode = true ∧ cfg.assertions.issuers = []
+  · have hcfg : cfg.ok = false := by simp [Config.ok, hbad.1, hbad.2]
+    simp [hbad, hcfg, Outcome.verdict, Verdict.rounded]
+  · have hcfg : cfg.ok = true := by
+      simp only [Config.ok, Bool.or_eq_true, Bool.not_eq_true', bne_iff_ne, ne_eq]
+      cases hj : cfg.jwksMode with
+      | false => exact Or.inl rfl
+      | true => exact Or.inr fun hi => hbad ⟨hj, hi⟩
+    have this := hbad
+    simp only [hcfg]
+    simp only [Bool.not_true, Bool.false_eq_true, ↓reduceIte, this]
+    cases p with
+    | absent => rfl
+    | garbage => rfl
+    | token tok =>
+      simp only
+      cases hpl : tok.payload with
+      | none =>
+        simp only
+        split <;> rfl
+      | some pl =>
+        cases hsup : Gen.supported.contains tok.alg with
+        | false =>
+          simp only [Bool.false_and, Bool.not_false, ↓reduceIte, Bool.false_eq_true, false_and]
+          cases pl <;> rfl
+        | true =>
+          cases hcan : tok.canonical with
+          | false =>
+            simp only [Bool.and_false, Bool.not_false, ↓reduceIte, Bool.false_eq_true, and_false]
+            cases pl <;> rfl
+          | true =>
+            have hmem : tok.alg ∈ Gen.supported := by simpa using hsup
+            have halg : tok.alg ≠ "" := supported_nonempty_alg hempty hmem
+            simp only [Bool.and_self, Bool.not_true, Bool.false_eq_true, ↓reduceIte, and_self]
+            cases pl with
+            | obj kvs =>
+              simp only [Val.members]
+              cases hmd : resolveMetadata cfg w with
+              | error e =>
+                have := (resolveMetadata_error_iff cfg w).mp ⟨e, hmd⟩
+                simp only [this]
+                rfl
+              | ok md =>
+                have hmd' := (resolveMetadata_ok_iff cfg w md).mp hmd
+                simp only [hmd', endpointOf_eq]
+                cases hjw : w.jwks (Spec.endpoint cfg kvs) with
+                | none => rfl
+                | some ks =>
+                  simp only
+                  have hv := verify_isOk_iff_any (effective cfg rule md.issuer) cfg.validateJwk ks tok kvs nowMs halg
+                  rw [effective_eq_inForce] at hv
+                  rw [effective_eq_inForce]
+                  cases hany : ks.any (Spec.entitles (Spec.inForce cfg rule md.issuer) cfg.validateJwk ks tok kvs nowMs) with
+                  | true =>
+                    have := hv.mpr hany
+                    simp only [this, finish, ↓reduceIte]
+                    exact subject_verdict _ _
+                  | false =>
+                    simp only [Bool.false_eq_true, ↓reduceIte]
+                    apply finish_error_verdict
+                    intro hver
+                    have := hv.mp hver
+                    rw [hany] at this; cases this
+            | null =>
+              simp only [Val.members]
+              cases hmd : resolveMetadata cfg w with
+              | error e => rfl
+              | ok md =>
+                simp only
+                cases hjw : w.jwks (endpointOf cfg []) with
+                | none => rfl
+                | some ks =>
+                  simp only
+                  exact finish_error_verdict _ _ _ (verify_nil_not_ok _ _ _ _ _)
+            | bool _ => rfl
+            | num _ _ => rfl
+            | str _ => rfl
+            | arr _ => rfl
+
+/-! ## The JWK cache -/
+
+/-- every cached key was, at some earlier moment, the key `getKey` selected from the key set served for that url:
+the only key with that `kid`, with a valid certificate -/
+def Prov (v : Bool) (hist : List World) (cache : Cache) : Prop :=
+  ∀ u kid k, cache.find u kid = some k → ∃ w ∈ hist, ∃ ks, w.jwks u = some ks ∧ selectByKid v ks kid = .ok k
+
+theorem prov_nil (v : Bool) (hist : List World) : Prov v hist [] := by
+  intro u kid k h
+  simp [Cache.find] at h
+
+theorem prov_mono {v : Bool} {hist : List World} {cache : Cache} (w : World) (h : Prov v hist cache) :
+    Prov v (w :: hist) cache := by
+  intro u kid k hf
+  obtain ⟨w', hw', rest⟩ := h u kid k hf
+  exact ⟨w', List.mem_cons_of_mem _ hw', rest⟩
+
+/-- what `authenticate` does once token, payload and metadata are settled -/
+theorem authenticate_tail (cfg : Config) (rule : Option Expectation) (w : World) (tok : Token) (pl : Val)
+    (kvs : List (String × Val)) (md : Metadata) (nowMs : Int)
+    (hcfg : cfg.ok = true) (hsc : (Gen.supported.contains tok.alg && tok.canonical) = true)
+    (hpl : tok.payload = some pl) (hkvs : pl.members = some kvs) (hmd : resolveMetadata cfg w = .ok md) :
+    authenticate cfg rule w (.token tok) nowMs =
+      match w.jwks (endpointOf cfg kvs) with
+      | none => .rejected .keySet
+      | some ks => finish cfg.subject pl (verify (effective cfg rule md.issuer) cfg.validateJwk ks tok kvs nowMs) := by
+  unfold authenticate
+  simp only [hcfg, Bool.not_true, Bool.false_eq_true, ↓reduceIte, hsc, hpl, hkvs, hmd]
+  cases w.jwks (endpointOf cfg kvs) <;> rfl
+
+/-- **The cache preserves provenance.** -/
+theorem step_prov (cfg : Config) (rule : Option Expectation) (w : World) (hist : List World) (cache : Cache)
+    (p : Presented) (nowMs : Int) (h : Prov cfg.validateJwk hist cache) :
+    Prov cfg.validateJwk (w :: hist) (step cfg rule w cache p nowMs).2 := by
+  have hm := prov_mono w h
+  unfold step
+  split
+  · exact hm
+  · split
+    · exact hm
+    · exact hm
+    · rename_i tok
+      split
+      · exact hm
+      · split
+        · exact hm
+        · rename_i pl hpl
+          split
+          · exact hm
+          · rename_i kvs hkvs
+            split
+            · exact hm
+            · rename_i md hmd
+              simp only
+              split
+              · split <;> exact hm
+              · split
+                · exact hm
+                · split
+                  · exact hm
+                  · rename_i ks hks
+                    split
+                    · exact hm
+                    · rename_i k hsel
+                      simp only
+                      split
+                      · intro u kid k' hf
+                        simp only [Cache.find] at hf
+                        split at hf
+                        · rename_i heq
+                          cases hf
+                          obtain ⟨rfl, rfl⟩ := heq
+                          exact ⟨w, List.mem_cons_self, ks, hks, hsel⟩
+                        · exact hm u kid k' hf
+                      · exact hm
+
+/-- **A request served from the cache is decided like a request on a cold cache against the key set the key was
+taken from**: every outcome of `step` is the outcome of `authenticate` against the current metadata and the key-set
+endpoint as it answered now or at an earlier moment. -/
+theorem step_origin (cfg : Config) (rule : Option Expectation) (w : World) (hist : List World) (cache : Cache)
+    (p : Presented) (nowMs : Int) (h : Prov cfg.validateJwk hist cache) :
+    ∃ w' ∈ w :: hist,
+      (step cfg rule w cache p nowMs).1 = authenticate cfg rule { metadata := w.metadata, jwks := w'.jwks } p nowMs := by
+  have self : ∀ o, o = authenticate cfg rule w p nowMs →
+      ∃ w' ∈ w :: hist, o = authenticate cfg rule { metadata := w.metadata, jwks := w'.jwks } p nowMs :=
+    fun o ho => ⟨w, List.mem_cons_self, ho⟩
+  unfold step
   cases hcfg : cfg.ok with
-  | false => simp [Outcome.verdict]
+  | false => exact self _ (by unfold authenticate; simp only [hcfg, Bool.not_true, Bool.not_false, Bool.false_eq_true, ↓reduceIte])
   | true =>
     simp only [Bool.not_true, Bool.false_eq_true, ↓reduceIte]
     cases p with
-    | absent => simp [Spec.preconditions, Outcome.verdict]
-    | garbage => simp [Spec.preconditions, Outcome.verdict]
+    | absent => exact self _ (by unfold authenticate; simp only [hcfg, Bool.not_true, Bool.not_false, Bool.false_eq_true, ↓reduceIte])
+    | garbage => exact self _ (by unfold authenticate; simp only [hcfg, Bool.not_true, Bool.not_false, Bool.false_eq_true, ↓reduceIte])
     | token tok =>
-      simp only [Spec.preconditions]
-      cases hsup : Gen.supported.contains tok.alg with
-      | false => simp [Outcome.verdict]
+      simp only
+      cases hsc : (Gen.supported.contains tok.alg && tok.canonical) with
+      | false => exact self _ (by unfold authenticate; simp only [hcfg, hsc, Bool.not_true, Bool.not_false, Bool.false_eq_true, ↓reduceIte])
       | true =>
-        have hmem : tok.alg ∈ Gen.supported := by simpa using hsup
-        have halg : tok.alg ≠ "" := supported_nonempty_alg hempty hmem
-        simp only [↓reduceIte, Bool.not_true, Bool.false_eq_true, Option.bind_eq_bind, Option.pure_def]
+        simp only [Bool.not_true, Bool.false_eq_true, ↓reduceIte]
         cases hpl : tok.payload with
-        | none => simp [Outcome.verdict]
+        | none => exact self _ (by unfold authenticate; simp only [hcfg, hsc, hpl, Bool.not_true, Bool.not_false, Bool.false_eq_true, ↓reduceIte])
         | some pl =>
-          simp only [Option.bind_some]
+          simp only
           cases hkvs : pl.members with
-          | none => simp [Outcome.verdict]
+          | none => exact self _ (by unfold authenticate; simp only [hcfg, hsc, hpl, hkvs, Bool.not_true, Bool.not_false, Bool.false_eq_true, ↓reduceIte])
           | some kvs =>
-            simp only [Option.bind_some]
+            simp only
             cases hmd : resolveMetadata cfg w with
-            | error e => simp [Except.toOption, Outcome.verdict]
+            | error e => exact self _ (by unfold authenticate; simp only [hcfg, hsc, hpl, hkvs, hmd, Bool.not_true, Bool.not_false, Bool.false_eq_true, ↓reduceIte])
             | ok md =>
-              simp only [Except.toOption, Option.bind_some]
-              cases hjw : w.jwks with
-              | none => simp [Outcome.verdict]
-              | some ks =>
-                simp only [Option.bind_some]
-                have hv := verify_isOk_iff_any (effective cfg rule md.issuer) cfg.validateJwk ks tok kvs nowMs halg
-                cases hc : decodeClaims kvs with
+              simp only
+              have tail := fun w' : World => authenticate_tail cfg rule { metadata := w.metadata, jwks := w'.jwks }
+                tok pl kvs md nowMs hcfg hsc hpl hkvs hmd
+              by_cases hkid : tok.kid = ""
+              · simp only [hkid, ↓reduceIte]
+                refine ⟨w, List.mem_cons_self, ?_⟩
+                rw [tail w]
+                cases w.jwks (endpointOf cfg kvs) with
+                | none => rfl
+                | some ks => simp [verify, hkid]
+              · simp only [hkid, ↓reduceIte]
+                cases hhit : (if cfg.cacheEnabled = true then cache.find (endpointOf cfg kvs) tok.kid else none) with
+                | some k =>
+                  simp only
+                  have hf : cache.find (endpointOf cfg kvs) tok.kid = some k := by
+                    by_cases hc : cfg.cacheEnabled = true
+                    · simpa [hc] using hhit
+                    · simp [hc] at hhit
+                  obtain ⟨w', hw', ks, hks, hsel⟩ := h _ _ _ hf
+                  refine ⟨w', List.mem_cons_of_mem _ hw', ?_⟩
+                  rw [tail w']
+                  simp only [hks, verify, hkid, ↓reduceIte, hsel]
                 | none =>
-                  simp only [Option.bind_none]
-                  cases hver : verify (effective cfg rule md.issuer) cfg.validateJwk ks tok kvs nowMs with
-                  | error e => simp [Outcome.verdict]
-                  | ok u =>
-                    cases u
-                    obtain ⟨c, hc', _⟩ := hv.mp hver
-                    rw [hc] at hc'; cases hc'
-                | some c =>
-                  simp only [Option.bind_some]
-                  cases hany : ks.any (Spec.entitledB (effective cfg rule md.issuer) cfg.validateJwk ks tok c nowMs) with
-                  | true =>
-                    have := hv.mpr ⟨c, hc, hany⟩
-                    simp [this]
-                  | false =>
-                    cases hver : verify (effective cfg rule md.issuer) cfg.validateJwk ks tok kvs nowMs with
-                    | error e => simp [Outcome.verdict]
-                    | ok u =>
-                      cases u
-                      obtain ⟨c', hc', hany'⟩ := hv.mp hver
-                      rw [hc] at hc'; cases hc'
-                      rw [hany] at hany'; cases hany'
+                  simp only
+                  refine ⟨w, List.mem_cons_self, ?_⟩
+                  rw [tail w]
+                  cases w.jwks (endpointOf cfg kvs) with
+                  | none => rfl
+                  | some ks =>
+                    simp only [verify, hkid, ↓reduceIte]
+                    cases selectByKid cfg.validateJwk ks tok.kid with
+                    | error e => rfl
+                    | ok k => rfl
+
+/-- a request on an empty cache is `authenticate` -/
+theorem step_nil (cfg : Config) (rule : Option Expectation) (w : World) (p : Presented) (nowMs : Int) :
+    (step cfg rule w [] p nowMs).1 = authenticate cfg rule w p nowMs := by
+  obtain ⟨w', hw', h⟩ := step_origin cfg rule w [] [] p nowMs (prov_nil _ _)
+  simp only [List.mem_cons, List.not_mem_nil, or_false] at hw'
+  subst hw'
+  exact h
+
+/-- the histories and caches along a run -/
+theorem run_origin (cfg : Config) (rule : Option Expectation) :
+    ∀ (reqs : List (World × Presented × Int)) (hist : List World) (cache : Cache),
+      Prov cfg.validateJwk hist cache →
+      ∀ i (hi : i < reqs.length), ∃ w' ∈ (reqs.take (i + 1)).map (·.1) ++ hist,
+        (run cfg rule reqs cache)[i]? =
+          some (authenticate cfg rule { metadata := reqs[i].1.metadata, jwks := w'.jwks } reqs[i].2.1 reqs[i].2.2)
+  | [], _, _, _, i, hi => by simp at hi
+  | (w, p, now) :: rest, hist, cache, hprov, i, hi => by
+    cases i with
+    | zero =>
+      obtain ⟨w', hw', h⟩ := step_origin cfg rule w hist cache p now hprov
+      refine ⟨w', by simpa using hw', ?_⟩
+      simp [run, h]
+    | succ j =>
+      have hj : j < rest.length := by simpa using hi
+      obtain ⟨w', hw', h⟩ := run_origin cfg rule rest (w :: hist) _ (step_prov cfg rule w hist cache p now hprov) j hj
+      refine ⟨w', ?_, ?_⟩
+      · simp only [List.take_succ_cons, List.map_cons, List.cons_append, List.mem_cons, List.mem_append,
+          List.mem_map] at hw' ⊢
+        rcases hw' with hw' | hw' | hw'
+        · exact Or.inr (Or.inl hw')
+        · exact Or.inl hw'
+        · exact Or.inr (Or.inr hw')
+      · simpa [run] using h
 
 end Heimdall.Jwt
